@@ -10,7 +10,8 @@ cd $W
 git apply /tmp/seed2-out/$ID/patch.diff || { echo "PATCH DOES NOT APPLY"; exit 3; }
 echo "== build"; go build ./... || { echo "BUILD FAILS"; exit 3; }
 echo "== full test suite with the change"
-go test -vet=off -count=1 ./... > /tmp/sv-$ID.suite 2>&1
+# own network namespace: cmd/pint binds fixed ports and other suites run on this machine
+unshare -n sh -c 'ip link set lo up; go test -vet=off -count=1 -skip "TestSeedDemo" ./...' > /tmp/sv-$ID.suite 2>&1
 SUITE=$?
 if [ $SUITE -ne 0 ]; then
   # cmd/pint uses fixed ports: retry failing packages (other jobs on this machine run the same suite)
